@@ -688,4 +688,413 @@ theorem readAndCutStr_safe (opt : Opt) (hbag : ∀ bag, opt.regexBag = some bag 
     (hl : LNZ opt.bounds.list) (input : Bytes) : (readAndCutStr opt input).Safe :=
   cutRecords_safe opt hbag hl _ _ _
 
+/-! ## line mode -/
+
+theorem fwdEnd_safe (o : Opt) : ∀ (rest : List BoF) (a : Bool), (fwdEnd o rest a).Safe
+  | [], _ => Run.safe_ok _
+  | .filler f :: t, a => by
+    simp only [fwdEnd]; exact (fwdEnd_safe o t a).pre
+  | .bound b :: t, a => by
+    simp only [fwdEnd]
+    split
+    · split
+      · exact Run.safe_fail
+      · exact (fwdEnd_safe o t false).pre
+    · cases b.fallback with
+      | some f => exact (fwdEnd_safe o t false).pre
+      | none =>
+        cases o.fallbackOob with
+        | some f => exact (fwdEnd_safe o t false).pre
+        | none => exact Run.safe_fail
+
+/-- the one-line-at-a-time path has no panic site at all -/
+theorem fwdLines_safe (o : Opt) : ∀ (ls : List Bytes) (idx : Int) (rest : List BoF) (a : Bool),
+    (fwdLines o ls idx rest a).Safe
+  | [], _, rest, a => fwdEnd_safe o rest a
+  | line :: t, idx, rest, a => by
+    simp only [fwdLines]
+    split
+    · exact Run.safe_fail
+    · split
+      · exact Run.safe_ok _
+      · exact (fwdLines_safe o t _ _ _).pre
+
+theorem cutLinesForwardOnly_safe (o : Opt) (input : Bytes) : (cutLinesForwardOnly o input).Safe :=
+  fwdLines_safe o _ _ _ _
+
+theorem cutLines_safe (o : Opt) (hbag : ∀ bag, o.regexBag = some bag → bag.OK)
+    (hl : LNZ o.bounds.list) (input : Bytes) : (cutLines o input).Safe := by
+  unfold cutLines
+  split
+  · exact Run.safe_fail
+  · exact cutStr_safe _ o _ _ _ hbag hl
+
+/-- **line mode never panics** -/
+theorem readAndCutLines_safe (o : Opt) (hbag : ∀ bag, o.regexBag = some bag → bag.OK)
+    (hl : LNZ o.bounds.list) (input : Bytes) : (readAndCutLines o input).Safe := by
+  unfold readAndCutLines
+  split
+  · exact cutLinesForwardOnly_safe o input
+  · exact cutLines_safe o hbag hl input
+
+/-! ## byte mode -/
+
+theorem cutBytesLoop_safe (data : Bytes) (o : Opt) (l : List BoF) (hl : LNZ l) :
+    (cutBytesLoop data o l).Safe := by
+  induction l with
+  | nil => exact Run.safe_empty
+  | cons x t ih =>
+    have iht := ih hl.tail
+    cases x with
+    | filler f => simp only [cutBytesLoop]; exact iht.pre
+    | bound b =>
+      simp only [cutBytesLoop]
+      cases hr : b.tryIntoRange data.length with
+      | some p =>
+        obtain ⟨s, e⟩ := p
+        have hb := tryIntoRange_bounds b data.length s e (hl b (by simp)) hr
+        have : s ≤ e ∧ e ≤ data.length := ⟨by omega, hb.2⟩
+        simp only [this, and_self, if_true]
+        exact iht.pre
+      | none =>
+        simp only
+        cases b.fallback with
+        | some f => exact iht.pre
+        | none =>
+          cases o.fallbackOob with
+          | some f => exact iht.pre
+          | none => exact Run.safe_fail
+
+/-- **byte mode never panics** -/
+theorem readAndCutBytes_safe (o : Opt) (hl : LNZ o.bounds.list) (data : Bytes) :
+    (readAndCutBytes o data).Safe := by
+  unfold readAndCutBytes
+  split
+  · exact Run.safe_empty
+  · exact cutBytesLoop_safe data o _ hl
+
+/-! ## `-M`: the chunk machine -/
+
+/-- no written index is negative (what `ForwardBounds::try_from` checks first) -/
+def NoNeg (l : List BoF) : Prop := ∀ b, BoF.bound b ∈ l → b.l.isNeg = false ∧ b.r.isNeg = false
+
+theorem oppSign_false (v idx : Int) (hv : ¬ v < 0) (hidx : 1 ≤ idx) : oppSign v idx = false := by
+  simp only [oppSign, Bool.or_eq_false_iff, Bool.and_eq_false_iff, decide_eq_false_iff_not]
+  omega
+
+/-- `matches` fails (the `unwrap()` in `print_bof`) only on a sign mismatch -/
+theorem matches_isSome (b : UserBounds) (idx : Int) (hidx : 1 ≤ idx)
+    (hb : b.l.isNeg = false ∧ b.r.isNeg = false) : ∃ m, b.matches idx = some m := by
+  obtain ⟨h1, h2⟩ := hb
+  unfold UserBounds.matches
+  cases hl : b.l with
+  | cont =>
+    cases hr : b.r with
+    | cont => simp
+    | some r =>
+      rw [hr] at h2
+      simp only [Side.isNeg, decide_eq_false_iff_not] at h2
+      simp [oppSign_false r idx h2 hidx]
+  | some l =>
+    rw [hl] at h1
+    simp only [Side.isNeg, decide_eq_false_iff_not] at h1
+    cases hr : b.r with
+    | cont => simp [oppSign_false l idx h1 hidx]
+    | some r =>
+      rw [hr] at h2
+      simp only [Side.isNeg, decide_eq_false_iff_not] at h2
+      simp [oppSign_false l idx h1 hidx, oppSign_false r idx h2 hidx]
+
+theorem printBof_isSome (o : StreamOpt) (hb : NoNeg o.bounds) (bofIdx : Nat) (cf : Int)
+    (hcf : 1 ≤ cf) (tr : Bool) (p : Bytes) (fc : Bool) :
+    ∃ w i, printBof o bofIdx cf tr p fc = some (w, i) := by
+  unfold printBof
+  split
+  rename_i w0 i _
+  simp only
+  cases hi : o.bounds[i]? with
+  | none => exact ⟨_, _, rfl⟩
+  | some x =>
+    cases x with
+    | filler f => exact ⟨_, _, rfl⟩
+    | bound b =>
+      have hmem : BoF.bound b ∈ o.bounds := List.mem_of_getElem? hi
+      obtain ⟨m, hm⟩ := matches_isSome b cf hcf (hb b hmem)
+      simp only [hm]
+      cases m with
+      | false => exact ⟨_, _, rfl⟩
+      | true =>
+        simp only
+        split
+        · exact ⟨_, _, rfl⟩
+        · exact ⟨_, _, rfl⟩
+
+theorem printFillerOrFallbacks_safe (o : StreamOpt) (n : Int) (hn : 1 ≤ n) :
+    ∀ (l : List BoF), NoNeg l → (printFillerOrFallbacks o n l).Safe
+  | [], _ => Run.safe_empty
+  | .filler f :: t, h => by
+    simp only [printFillerOrFallbacks]
+    exact (Run.safe_ok _).seq
+      (printFillerOrFallbacks_safe o n hn t (fun b hb => h b (List.mem_cons_of_mem _ hb)))
+  | .bound b :: t, h => by
+    have iht := printFillerOrFallbacks_safe o n hn t (fun b hb => h b (List.mem_cons_of_mem _ hb))
+    obtain ⟨m, hm⟩ := matches_isSome b n hn (h b (by simp))
+    simp only [printFillerOrFallbacks, hm]
+    split
+    · exact iht
+    · cases b.fallback with
+      | some f => exact (Run.safe_ok _).seq iht
+      | none =>
+        cases o.fallbackOob with
+        | some f => exact (Run.safe_ok _).seq iht
+        | none => exact Run.safe_fail
+
+theorem NoNeg.drop {l : List BoF} (h : NoNeg l) (i : Nat) : NoNeg (l.drop i) :=
+  fun b hb => h b (List.mem_of_mem_drop hb)
+
+theorem endOfRecord_safe (o : StreamOpt) (hb : NoNeg o.bounds) (st : SState)
+    (hcf : 1 ≤ st.currField) : (endOfRecord o st).Safe := by
+  unfold endOfRecord
+  obtain ⟨w, i, h⟩ := printBof_isSome o hb st.bofIdx st.currField hcf st.trunc st.piece true
+  simp only [h]
+  exact (Run.safe_ok _).seq
+    ((printFillerOrFallbacks_safe o _ hcf _ (hb.drop i)).seq (Run.safe_ok _))
+
+/-- one step: what is written is no panic, and `curr_field ≥ 1` is kept -/
+theorem streamStep_safe (o : StreamOpt) (hb : NoNeg o.bounds) (st : SState)
+    (hcf : 1 ≤ st.currField) (c : UInt8) (last : Bool) :
+    (streamStep o st c last).1.Safe ∧ 1 ≤ (streamStep o st c last).2.currField := by
+  unfold streamStep
+  split
+  · split
+    · exact ⟨Run.safe_ok _, Int.le_refl 1⟩
+    · exact ⟨Run.safe_empty, hcf⟩
+  · split
+    · split
+      · exact ⟨Run.safe_ok _, Int.le_refl 1⟩
+      · exact ⟨endOfRecord_safe o hb st hcf, Int.le_refl 1⟩
+    · split
+      · obtain ⟨w, i, h⟩ := printBof_isSome o hb st.bofIdx st.currField hcf st.trunc st.piece true
+        simp only [h]
+        split
+        · exact ⟨(Run.safe_ok _).seq (printFillerOrFallbacks_safe o _ hcf _ (hb.drop i)), hcf⟩
+        · refine ⟨Run.safe_ok _, ?_⟩
+          simp only
+          omega
+      · simp only
+        split
+        · obtain ⟨w, i, h⟩ :=
+            printBof_isSome o hb st.bofIdx st.currField hcf st.trunc (st.piece ++ [c]) false
+          simp only [h]
+          exact ⟨Run.safe_ok _, hcf⟩
+        · exact ⟨Run.safe_empty, hcf⟩
+
+theorem streamEof_safe (o : StreamOpt) (hb : NoNeg o.bounds) (st : SState)
+    (hcf : 1 ≤ st.currField) : (streamEof o st).Safe := by
+  unfold streamEof
+  split
+  · exact Run.safe_empty
+  · split
+    · exact Run.safe_ok _
+    · split
+      · exact endOfRecord_safe o hb st hcf
+      · obtain ⟨w, i, h⟩ := printBof_isSome o hb st.bofIdx st.currField hcf st.trunc st.piece false
+        simp only [h]
+        exact (Run.safe_ok _).seq (endOfRecord_safe o hb _ hcf)
+
+theorem streamRun_safe (o : StreamOpt) (hb : NoNeg o.bounds) :
+    ∀ (l : List (UInt8 × Bool)) (st : SState), 1 ≤ st.currField → (streamRun o st l).Safe
+  | [], st, h => streamEof_safe o hb st h
+  | (c, last) :: t, st, h => by
+    simp only [streamRun]
+    have := streamStep_safe o hb st h c last
+    exact this.1.seq (streamRun_safe o hb t _ this.2)
+
+theorem isForwardOnly_noNeg (l : List BoF) (h : isForwardOnly l = true) : NoNeg l := by
+  unfold isForwardOnly at h
+  simp only [Bool.and_eq_true, Bool.not_eq_true'] at h
+  have hn := h.2
+  unfold hasNegativeIndices at hn
+  intro b hb
+  have := List.any_eq_false.1 hn b (mem_boundsOnly.2 hb)
+  simpa using this
+
+theorem forwardBoundsOf_noNeg (l : UserBoundsList) (bs : List BoF)
+    (h : forwardBoundsOf l = some bs) : NoNeg bs := by
+  unfold forwardBoundsOf at h
+  split at h
+  · simp at h
+  · split at h
+    · rename_i hfw
+      split at h
+      · split at h
+        · rename_i l' hl'
+          simp only [Option.some.injEq] at h
+          subst h
+          intro b hb
+          obtain ⟨b0, h0, h1, h2⟩ := fromVec_sides _ _ hl' b hb
+          rw [← h1, ← h2]
+          exact isForwardOnly_noNeg _ hfw b0 h0
+        · simp at h
+      · simp at h
+    · simp at h
+
+theorem streamOptOf_forward (o : Opt) (so : StreamOpt) (h : streamOptOf o = some so) :
+    forwardBoundsOf o.bounds = some so.bounds := by
+  unfold streamOptOf at h
+  split at h
+  · simp only at h
+    split at h
+    · simp at h
+    · split at h
+      · simp at h
+      · split at h
+        · simp at h
+        · rename_i bs hbs
+          split at h
+          · simp at h
+          · simp only [Option.some.injEq] at h
+            subst h
+            exact hbs
+  · simp at h
+
+/-- **`-M` never panics**: whatever `StreamOpt::try_from` accepts, every segmentation of every
+    input.  (No hypothesis on the bounds: `ForwardBounds::try_from` has refused negative indexes,
+    and `curr_field ≥ 1` is an invariant of the machine, so `matches(..).unwrap()` cannot fail.) -/
+theorem cutBytesStream_safe (o : Opt) (so : StreamOpt) (h : streamOptOf o = some so)
+    (segs : List Bytes) : (cutBytesStream so segs).Safe :=
+  streamRun_safe so (forwardBoundsOf_noNeg _ _ (streamOptOf_forward o so h)) _ _ (by decide)
+
+/-! ## `main`: a write fault never produces a panic -/
+
+theorem deliver_safe (r : Run) (lim : Option Nat) (h : r.Safe) : (deliver r lim).Safe := by
+  unfold deliver
+  cases lim with
+  | none => exact h
+  | some k =>
+    simp only
+    split
+    · exact h
+    · rcases h with h | h
+      · exact Or.inr (by simp [h])
+      · exact Or.inr (by simp [h])
+
+/-! ## the work does not grow with the numeric value of an index -/
+
+theorem rangeEnd_le (r : Side) (n : Nat) (e : Int) (h : rangeEnd r n = some e) : e ≤ n := by
+  cases r with
+  | cont => simp only [rangeEnd, Option.some.injEq] at h; omega
+  | some v =>
+    simp only [rangeEnd] at h
+    split at h
+    · simp at h
+    · split at h <;> simp only [Option.some.injEq] at h <;> omega
+
+/-- a resolved range never ends after the last part, whatever the written numbers -/
+theorem tryIntoRange_le (b : UserBounds) (n s e : Nat) (h : b.tryIntoRange n = some (s, e)) :
+    e ≤ n := by
+  unfold UserBounds.tryIntoRange at h
+  split at h
+  · simp at h
+  · split at h
+    · simp at h
+    · rename_i e' he
+      split at h
+      · simp at h
+      · simp only [Option.some.injEq, Prod.mk.injEq] at h
+        have := rangeEnd_le b.r n e' he
+        omega
+
+/-- `unpack` yields at most one bound per existing field: `1:2147483647` on a 3-field record
+    becomes 3 bounds, not two thousand million -/
+theorem unpack_length_le (b : UserBounds) (n : Nat) : (b.unpack n).length ≤ max 1 n := by
+  unfold UserBounds.unpack
+  cases hr : b.tryIntoRange n with
+  | none => simp only [List.length_singleton]; omega
+  | some p =>
+    obtain ⟨s, e⟩ := p
+    have := tryIntoRange_le b n s e hr
+    simp only [List.length_map, List.length_range]
+    omega
+
+theorem unpackBof_length_le (n : Nat) (x : BoF) : (unpackBof n x).length ≤ max 1 n := by
+  cases x with
+  | bound b => simpa [unpackBof] using unpack_length_le b n
+  | filler f => simp only [unpackBof, List.length_singleton]; omega
+
+theorem unpackList_length_le (n : Nat) (l : List BoF) :
+    (l.flatMap (unpackBof n)).length ≤ l.length * max 1 n := by
+  induction l with
+  | nil => simp
+  | cons x t ih =>
+    simp only [List.flatMap_cons, List.length_append, List.length_cons, Nat.succ_mul]
+    have := unpackBof_length_le n x
+    omega
+
+/-- `complement` yields at most two bounds -/
+theorem complement_length_le (b : UserBounds) (n : Nat) (l : List UserBounds)
+    (h : b.complement n = some l) : l.length ≤ 2 := by
+  unfold UserBounds.complement at h
+  simp only [Option.map_eq_some_iff] at h
+  obtain ⟨r, _, rfl⟩ := h
+  obtain ⟨s, e⟩ := r
+  simp only [List.length_map]
+  unfold complementStdRange
+  split <;> split <;> simp
+
+theorem complementBof_length_le (n : Nat) (x : BoF) : (complementBof n x).length ≤ 2 := by
+  cases x with
+  | filler f => simp [complementBof]
+  | bound b =>
+    unfold complementBof
+    cases hc : b.complement n with
+    | none => simp [hc]
+    | some bs => simpa [hc] using complement_length_le b n bs hc
+
+/-! ## the fuel of `trim` never runs out -/
+
+theorem trimStartFuel_fuel_eq (d : Bytes) (hd : d ≠ []) (n : Nat) :
+    ∀ (m : Nat) (l : Bytes), l.length ≤ n → l.length ≤ m →
+      trimStartFuel d n l = trimStartFuel d m l := by
+  induction n with
+  | zero =>
+    intro m l h _
+    have : l = [] := List.eq_nil_of_length_eq_zero (by omega)
+    subst this
+    cases m with
+    | zero => rfl
+    | succ m =>
+      have : d.isPrefixOf ([] : Bytes) = false := by
+        cases d with
+        | nil => exact absurd rfl hd
+        | cons _ _ => rfl
+      simp [trimStartFuel, this]
+  | succ n ih =>
+    intro m l hn hm
+    cases m with
+    | zero =>
+      have : l = [] := List.eq_nil_of_length_eq_zero (by omega)
+      subst this
+      have : d.isPrefixOf ([] : Bytes) = false := by
+        cases d with
+        | nil => exact absurd rfl hd
+        | cons _ _ => rfl
+      simp [trimStartFuel, this]
+    | succ m =>
+      simp only [trimStartFuel]
+      split
+      · rename_i hp
+        have hpl := (List.isPrefixOf_iff_prefix.mp hp).length_le
+        have hdpos : 0 < d.length := List.length_pos_iff.mpr hd
+        have : (l.drop d.length).length < l.length := by
+          simp only [List.length_drop]; omega
+        exact ih m _ (by omega) (by omega)
+      · rfl
+
+/-- the `while buffer[idx..].starts_with(delimiter)` loop terminates: with a non-empty delimiter
+    any fuel ≥ the length of the buffer gives the same result as exactly that much -/
+theorem trimStartFuel_fuel (d : Bytes) (hd : d ≠ []) (n : Nat) (l : Bytes) (h : l.length ≤ n) :
+    trimStartFuel d n l = trimStartFuel d l.length l :=
+  trimStartFuel_fuel_eq d hd n l.length l h (Nat.le_refl _)
+
 end Tuc
